@@ -27,6 +27,16 @@ CHECKS = {
                      "handler model only produces allowed edges and nothing after a terminal / closed outcome, including a write failure "
                      "at any send; the edge cover and simulations are replayed into the real connection and the real report sequence, "
                      "timer flag, frames and close calls are judged by the same formulas.", ref="6.C04"),
+    "C05": dict(engine="hub2", technique="TLA+ model checking of Hub2 (two hubs, non-atomic dial/keep/register, delayed dials) + TLC environment scripts on two real hubs, TLC monitor at quiescence",
+                text="Hub2.tla models two hubs at critical-section granularity (reports, delayed dial goroutines, keepThisConnection, Run, "
+                     "registerConnection, double-connection rule, closes, checkAutoReannounce) and TLC checks 'stable and quiet => exactly "
+                     "one good connection, no orphan' for all interleavings within the bounds (4 connection ids, 2 disturbances). "
+                     "Simulated environment scripts (registration / visibility in any order, DisconnectSKI, transport cuts) run on two REAL "
+                     "hubs: real TLS websockets over loopback, the real MdnsManager over an ether, TCP proxies to count and cut streams, "
+                     "once with the dial back-off scaled to 2 % and once to zero (simultaneous dials). The monitor judges registries, open "
+                     "streams and a payload echo in both directions at quiescence.", ref="6.C05",
+                note="trusted: TLC; schedules of the real goroutines are chosen by the Go scheduler, only the environment is scripted; "
+                     "the handshake inside Hub2 is a one-step summary of ShipSme; quiescence is detected by silence plus registry state"),
     "C06": dict(engine="sme", technique="TLA+ model checking of ShipSme (single + pair) + replay, FIFO/exactly-once formula on real deliveries",
                 text="Data frames are injected in every state (single endpoint) and written by both applications (pair); the formula "
                      "'delivered = injected prefix, in order, only after completion, everything while open' is model checked and then "
@@ -127,7 +137,6 @@ NOT_APPLICABLE = {
            "code through its interfaces cannot observe it (DESIGN.md section 7); the Go race detector is a different technique",
 }
 NOT_YET = {
-    "C05": "two-hub engine / Hub2 not built yet; nothing is claimed",
 }
 
 
@@ -175,6 +184,9 @@ def main():
             dict(name="tables", path="spec/CertGate.tla spec/EebusJson.tla spec/MdnsText.tla (+ generators and monitors) harness/cmd/{certgate,eebusjson,mdnstext} tools/check_{cert,json,text}.py",
                  serves_properties=["C02", "C07", "C16"],
                  kind_free_text="requirement tables / operator transcriptions enumerated by TLC, evaluated row by row on the real code, judged by a TLC monitor pass"),
+            dict(name="hub2", path="spec/Hub2.tla spec/MonHub2.tla harness/cmd/hub2 tools/check_hub2.py",
+                 serves_properties=["C05", "C10", "C11", "C18"],
+                 kind_free_text="TLC model checking of two hubs + TLC environment scripts on two real hubs over loopback TLS + TLC monitor at quiescence"),
             dict(name="timer", path="spec/Timer.tla spec/AbsTimer.tla spec/TimerGen.tla spec/MonTimer.tla harness/cmd/timer tools/check_timer.py",
                  serves_properties=["C14"], kind_free_text="TLC refinement check + script enumeration on real timers + TLC monitor pass"),
         ],
